@@ -18,6 +18,6 @@ CONSTANTS
   AbandonKeepsTargetId = FALSE
   DirectStaysActive = FALSE
   StaleInsertAfterScrub = FALSE
-INVARIANTS TypeOK Routing FinalIsFinal StreamOK UniqueIds NoLeak Protected
+INVARIANTS TypeOK Routing FinalIsFinal StreamOK UniqueIds NoLeak Protected RoutedProtected
 
 CHECK_DEADLOCK FALSE
